@@ -86,10 +86,20 @@ def firstMaxIdx (le : Scalar → Scalar → Bool) : List Scalar → Nat
     let j := firstMaxIdx le (y :: t)
     if le ((y :: t).getD j y) x then 0 else j + 1
 
+/-- `Series.isna` on one cell: nothing was recorded there (the missing numeric cell, or `None`) -/
+def Scalar.missing : Scalar → Bool
+  | .nan => true
+  | .null => true
+  | _ => false
+
+/-- when NO pressure was recorded at any point there is no maximum to split at: nothing marks a desorption branch and every point
+is an adsorption point (`if pressure.isna().all(): return split`; S54-C06 — before that guard pandas' `idxmax` raised ValueError
+here and the library could not read back the document it had written for such a table) -/
 def splitAds (le : Scalar → Scalar → Bool) (ps : List Scalar) : List Nat :=
   let n := ps.length
   let infl := firstMaxIdx le ps + 1
-  if infl = n then List.replicate n 0
+  if ps.all Scalar.missing then List.replicate n 0
+  else if infl = n then List.replicate n 0
   else
     let infl' := if infl = 1 then 0 else infl
     (List.range n).map fun i => if infl' ≤ i then 1 else 0
